@@ -942,6 +942,11 @@ pub(crate) fn string_methods(builder: &mut MethodsBuilder) {
                 }
             }
         };
+        if sep.into_option() == Some("") {
+            return Err(anyhow::anyhow!(
+                "Empty separator cannot be used for splitting"
+            ));
+        }
         Ok(match sep.into_option() {
             None => match maxsplit {
                 None => heap
@@ -1041,6 +1046,11 @@ pub(crate) fn string_methods(builder: &mut MethodsBuilder) {
                 }
             }
         };
+        if sep.into_option() == Some("") {
+            return Err(anyhow::anyhow!(
+                "Empty separator cannot be used for splitting"
+            ));
+        }
         Ok(match (sep.into_option(), maxsplit) {
             (None, None) => heap
                 .alloc_typed_unchecked(AllocList(this.split_whitespace()))
